@@ -200,12 +200,20 @@ func (p *Prog) CG() *callgraph.Graph {
 
 // Callees returns the possible callees of a call instruction (static callee, or call-graph edges for dynamic calls),
 // restricted to functions with bodies.
-func (p *Prog) Callees(site ssa.CallInstruction) []*ssa.Function {
+func (p *Prog) Callees(site ssa.CallInstruction) []*ssa.Function { return p.callees(site, false) }
+
+// CalleesU is Callees with bound-method wrappers and thunks (x.m used as a value) replaced by the method they call.
+func (p *Prog) CalleesU(site ssa.CallInstruction) []*ssa.Function { return p.callees(site, true) }
+
+func (p *Prog) callees(site ssa.CallInstruction, unwrap bool) []*ssa.Function {
 	if c := site.Common().StaticCallee(); c != nil {
 		return []*ssa.Function{c}
 	}
 	// a closure value called directly
 	if mc, ok := site.Common().Value.(*ssa.MakeClosure); ok {
+		if unwrap {
+			return []*ssa.Function{unwrapSynthetic(mc.Fn.(*ssa.Function))}
+		}
 		return []*ssa.Function{mc.Fn.(*ssa.Function)}
 	}
 	n := p.CG().Nodes[site.Parent()]
@@ -215,9 +223,13 @@ func (p *Prog) Callees(site ssa.CallInstruction) []*ssa.Function {
 	var out []*ssa.Function
 	seen := map[*ssa.Function]bool{}
 	for _, e := range n.Out {
-		if e.Site == site && !seen[e.Callee.Func] {
-			seen[e.Callee.Func] = true
-			out = append(out, e.Callee.Func)
+		f := e.Callee.Func
+		if unwrap {
+			f = unwrapSynthetic(f)
+		}
+		if e.Site == site && !seen[f] {
+			seen[f] = true
+			out = append(out, f)
 		}
 	}
 	sort.Slice(out, func(i, j int) bool { return funcKey(out[i]) < funcKey(out[j]) })
@@ -376,4 +388,28 @@ func (p *Prog) rootNamed(name string) *types.Named {
 	}
 	n, _ := o.Type().(*types.Named)
 	return n
+}
+
+// unwrapSynthetic maps a bound-method wrapper or thunk (x.m used as a value) to the method it calls.
+func unwrapSynthetic(f *ssa.Function) *ssa.Function {
+	if f == nil || f.Synthetic == "" || f.Blocks == nil {
+		return f
+	}
+	if !strings.HasSuffix(f.Name(), "$bound") && !strings.HasSuffix(f.Name(), "$thunk") {
+		return f
+	}
+	var target *ssa.Function
+	n := 0
+	for _, b := range f.Blocks {
+		for _, in := range b.Instrs {
+			if ci, ok := in.(ssa.CallInstruction); ok {
+				n++
+				target = ci.Common().StaticCallee()
+			}
+		}
+	}
+	if n == 1 && target != nil {
+		return target
+	}
+	return f
 }
